@@ -15,6 +15,8 @@ import Gama.Lemmas.Ls.GsoCof
 namespace Gama.NetDecision
 open Gama Gama.Ls Gama.LS Gama.Ls.Gso Matrix Finset
 
+set_option linter.unusedSectionVars false
+
 -- ------------------------------------------------------------------ counting flags
 
 /-- the list of flagged indices and the finite set of flagged unknowns have the same size -/
@@ -56,6 +58,11 @@ def obsGso (p : Problem K) : SolverObs K :=
       | .error e => some e
       | .ok _ => none)
   | .error e => { refused := some e, defect := 0, lindep := fun _ => false, qxx := fun _ => 0 }
+
+theorem obsGso_eq (p : Problem K) (a : Answer K) (ha : gsoSolveWith false p = .ok a) :
+    obsGso p = obsOfAnswer a (match gsoSolve p with
+      | .error e => some e
+      | .ok _ => none) := by unfold obsGso; rw [ha]
 
 theorem gsoSolveWith_false_ok (p : Problem K) (hreg : regInRange p.n p.reg = true) :
     ∃ a, gsoSolveWith false p = .ok a := by
